@@ -161,11 +161,15 @@ fn impl_menu() -> (Vec<AImpl>, Vec<AImpl>, Vec<AImpl>) {
         AImpl { tr: "Tr", assoc: "X", nvars: 1, head: s(t()), wcs: vec![at(t(), "Tr2")], value: proj("Tr2", "Y", t()) },
         AImpl { tr: "Tr", assoc: "X", nvars: 1, head: s(t()), wcs: vec![], value: s(t()) },
         AImpl { tr: "Tr", assoc: "X", nvars: 1, head: s(t()), wcs: vec![at(t(), "Tr2")], value: s(proj("Tr2", "Y", t())) },
+        // a projection nested under a constructor whose own normal form mentions the impl parameter
+        AImpl { tr: "Tr", assoc: "X", nvars: 1, head: s(t()), wcs: vec![at(s(t()), "Tr2")], value: s(proj("Tr2", "Y", s(t()))) },
     ];
     let tr2 = vec![
         AImpl { tr: "Tr2", assoc: "Y", nvars: 0, head: a(), wcs: vec![], value: a() },
         AImpl { tr: "Tr2", assoc: "Y", nvars: 1, head: s(t()), wcs: vec![], value: b() },
         AImpl { tr: "Tr2", assoc: "Y", nvars: 0, head: b(), wcs: vec![], value: s(b()) },
+        // alternative to the second entry (never together): the value is the parameter
+        AImpl { tr: "Tr2", assoc: "Y", nvars: 1, head: s(t()), wcs: vec![], value: t() },
     ];
     (base, generic, tr2)
 }
@@ -174,25 +178,40 @@ pub fn run_c07(rep: &Report) -> i32 {
     let thorough = rep.is_thorough();
     let (base, generic, tr2) = impl_menu();
     let mut programs: Vec<Vec<AImpl>> = vec![];
+    // a concrete impl whose header the generic impl's header also matches; the two are told apart
+    // only by the generic impl's where-clause (declared after or before the generic impl)
+    let overlapped = AImpl { tr: "Tr", assoc: "X", nvars: 0, head: s(b()), wcs: vec![], value: b() };
     for bm in 0..4usize {
         for g in 0..=generic.len() {
-            for tm in 0..8usize {
-                let mut v = vec![];
-                for (i, im) in base.iter().enumerate() {
-                    if bm >> i & 1 == 1 {
-                        v.push(im.clone());
+            for tm in 0..(1usize << tr2.len()) {
+                if tm >> 1 & 1 == 1 && tm >> 3 & 1 == 1 {
+                    continue; // two impls of Tr2 for S<T>
+                }
+                let extras: &[u8] = if g > 0 && !generic[g - 1].wcs.is_empty() { &[0, 1, 2] } else { &[0] };
+                for &extra in extras {
+                    let mut v = vec![];
+                    for (i, im) in base.iter().enumerate() {
+                        if bm >> i & 1 == 1 {
+                            v.push(im.clone());
+                        }
                     }
-                }
-                if g > 0 {
-                    v.push(generic[g - 1].clone());
-                }
-                for (i, im) in tr2.iter().enumerate() {
-                    if tm >> i & 1 == 1 {
-                        v.push(im.clone());
+                    if extra == 2 {
+                        v.push(overlapped.clone());
                     }
-                }
-                if !v.is_empty() {
-                    programs.push(v);
+                    if g > 0 {
+                        v.push(generic[g - 1].clone());
+                    }
+                    if extra == 1 {
+                        v.push(overlapped.clone());
+                    }
+                    for (i, im) in tr2.iter().enumerate() {
+                        if tm >> i & 1 == 1 {
+                            v.push(im.clone());
+                        }
+                    }
+                    if !v.is_empty() {
+                        programs.push(v);
+                    }
                 }
             }
         }
@@ -380,7 +399,7 @@ pub fn run_c07(rep: &Report) -> i32 {
         states,
         tr,
         nt,
-        "every coherent program from {subsets of 2 concrete impls of Tr} x {none or one of 5 generic impls of Tr for S<T> whose value is the parameter, a projection on the same trait, a projection on another trait, S<T>, or a type containing a projection} x {subsets of 3 impls of Tr2} x {associated type with/without a bound}; goals exists<U> { Normalize(<X as Tr>::X -> U) }, exists<U> { X: Tr<X = U> } and X: Tr<X = Y> for every ground X of depth <= 3 and every candidate Y, plus forall / forall-if variants; both solvers; non-trivial = (goal, solver) pairs for which REF's normalization is defined and was compared",
+        "every coherent program from {subsets of 2 concrete impls of Tr} x {none or one of 6 generic impls of Tr for S<T> whose value is the parameter, a projection on the same trait, a projection on another trait, S<T>, or a type containing a projection (of the parameter, or of S<T> so that its normal form mentions the parameter)} x {where the generic impl has a where-clause: none, or a concrete impl for S<B> whose header the generic header also matches, declared before or after it} x {coherent subsets of 4 impls of Tr2} x {associated type with/without a bound}; goals exists<U> { Normalize(<X as Tr>::X -> U) }, exists<U> { X: Tr<X = U> } and X: Tr<X = Y> for every ground X of depth <= 3 and every candidate Y, plus forall / forall-if variants; both solvers; non-trivial = (goal, solver) pairs for which REF's normalization is defined and was compared",
         true,
         &[
             "REF normalize: the unique impl whose header matches and whose where-clauses hold (lfp), substitute, normalize nested projections",
